@@ -835,7 +835,12 @@ def dataclient_monitor(task):
     def mkdoc():
         uid[0] += 1
         base = pytz.utc.localize(datetime(2019, rnd.choice([3, 6, 11]), rnd.randint(1, 28), rnd.randint(0, 23), rnd.randint(0, 59), rnd.randint(0, 59)))
-        d = {"_id": f"id{uid[0]}", "sessionID": f"sess{uid[0]}", "timezone": rnd.choice(["America/Los_Angeles", "America/New_York", "UTC"]),
+        zone = rnd.choice(["America/Los_Angeles", "America/New_York", "UTC"])
+        if zone != "UTC" and rnd.random() < 0.4:
+            # a session (and its time series) that straddles a daylight-saving transition of the document's zone
+            tr = rnd.choice([t for t in pytz.timezone(zone)._utc_transition_times if 2018 <= t.year <= 2021])
+            base = pytz.utc.localize(tr) - timedelta(minutes=rnd.choice([1, 4, 7]), seconds=rnd.randint(0, 59))
+        d = {"_id": f"id{uid[0]}", "sessionID": f"sess{uid[0]}", "timezone": zone,
              "connectionTime": rfc(base), "disconnectTime": rfc(base + timedelta(hours=3)), "doneChargingTime": None, "kWhDelivered": 3.2,
              "siteID": "0002", "userInputs": None, "note": "not a date"}
         if rnd.random() < 0.5:
@@ -885,7 +890,9 @@ def dataclient_monitor(task):
                         bad("other_fields_untouched", f"{g}")
                     if "chargingCurrent" in g:
                         tsl = g["chargingCurrent"]["timestamps"]
-                        if [x for x in tsl] != [b + timedelta(minutes=5 * k) for k in range(2)] or any(x.tzinfo is None for x in tsl) or g["chargingCurrent"]["current"] != [1.0, 2.0]:
+                        want = [b + timedelta(minutes=5 * k) for k in range(2)]
+                        if [x for x in tsl] != want or any(x.tzinfo is None for x in tsl) or g["chargingCurrent"]["current"] != [1.0, 2.0] \
+                                or any(x.utcoffset() != w.astimezone(tz).utcoffset() for x, w in zip(tsl, want)):
                             bad("time_series_timestamps_converted", f"{tsl}")
         # invalid site: rejected before any request
         srv = Server([[]], "")
